@@ -2,7 +2,8 @@
       and an output of fewer than three vertices never repeats a vertex ([kmp_short_nodup], bounded).
 
     The general [kmp_short_nodup : no_adj_dup r -> kmpDeduplicate r = Ok r' -> length r' < 3 ->
-    NoDup r'] is NOT proved (and no counterexample is known); only these bounded forms are. *)
+    NoDup r'] is FALSE ([kmp_short_nodup_refuted] in ProofsKmpShort.v: a chain of 75 vertices over three
+    centres is reduced to [p; p]); only these bounded forms hold. *)
 From Coq Require Import ZArith List Bool Lia.
 From Texel Require Import Prelude.Base Index.Model Snap.Model Snap.ProofsKmpSearch Snap.ProofsKmpEnum Snap.ProofsKmpEdges.
 Import ListNotations.
